@@ -29,24 +29,25 @@ PREFIX = 80
 
 def _members(ctx, repo, rec):
     """(list of points, complete?) - the object's own iteration"""
-    key = id(rec)
+    mode = R.canon(repo.CALENDAR.mode)
+    key = (id(rec), mode)
     hit = ctx.member_cache.get(key)
     if hit is not None and hit[0] is rec:
         return hit[1], hit[2]
     pts = list(itertools.islice(iter(rec), PREFIX + 1))
     complete = len(pts) <= PREFIX
     pts = pts[:PREFIX]
-    mode = R.canon(repo.CALENDAR.mode)
     ctx.member_cache = {key: (rec, pts, complete)}
-    ctx.member_insts = (rec, [R.tp_instant(mode, m) for m in pts])
+    ctx.member_insts = (rec, mode, [R.tp_instant(mode, m) for m in pts])
     return pts, complete
 
 
 def _member_insts(ctx, repo, rec, pts):
     hit = getattr(ctx, "member_insts", None)
-    if hit is not None and hit[0] is rec and len(hit[1]) == len(pts):
-        return hit[1]
     mode = R.canon(repo.CALENDAR.mode)
+    if hit is not None and hit[0] is rec and hit[1] == mode and \
+            len(hit[2]) == len(pts):
+        return hit[2]
     return [R.tp_instant(mode, m) for m in pts]
 
 
@@ -65,7 +66,12 @@ def _usable(rec, *points):
             return False
     d = rec._duration
     if d is not None and not R.dur_is_integral(d):
-        return False
+        # binary fractions with small denominators stay exact in floats
+        for v in (d._days, d._hours, d._minutes, d._seconds, d._weeks):
+            if v is not None:
+                den = F(v).denominator
+                if den > 4096 or den & (den - 1):
+                    return False
     return True
 
 
@@ -266,6 +272,7 @@ def install(ctx, repo, probes):
             else:
                 ctx.cls("first_after/between")
     probes.wrap(TR, "get_first_after", post_first_after)
+    ctx.target("same-object-other-mode", "binary-fraction-interval")
     ctx.target("probe/sub-second-near-miss", "is_valid/True", "is_valid/False", "getitem/in", "getitem/out",
                "next/member", "next/none", "prev/member", "prev/none",
                "first_after/none", "first_after/last-member",
@@ -310,6 +317,9 @@ def run_case(ctx, repo, case):
         except ValueError:
             return
         rng = __import__("random").Random(case["probe_seed"])
+        if any(F(v).denominator != 1 for v in
+               (desc.get("dur") or {}).values()):
+            ctx.cls("binary-fraction-interval")
         ctx.in_oracle += 1
         try:
             pts = list(itertools.islice(iter(rec), 14))
@@ -383,6 +393,30 @@ def run_case(ctx, repo, case):
                 rec[i]
             except IndexError:
                 pass
+        other = case.get("then_mode")
+        if other and other != mode:
+            # the same object queried again under another calendar mode (its
+            # anchors must be dates of both calendars)
+            repo.set_mode(other)
+            ok = all(x is None or R.tp_valid(other, x) for x in (
+                rec._start_point, rec._end_point))
+            if ok:
+                ctx.cls("same-object-other-mode")
+                for i in list(range(min(n, 8) + 2)) + [n - 1, n]:
+                    if i < 0:
+                        continue
+                    try:
+                        rec[i]
+                    except IndexError:
+                        pass
+                ctx.in_oracle += 1
+                try:
+                    now = list(itertools.islice(iter(rec), 6))
+                finally:
+                    ctx.in_oracle -= 1
+                for m in now:
+                    rec.get_is_valid(m)
+                    rec.get_next(m)
     finally:
         repo.set_mode("gregorian")
 
@@ -411,8 +445,26 @@ def workload(ctx, repo):
         mode = R.MODES[k % 4] if k % 2 else "gregorian"
         desc = recgen.make(rng, mode,
                            reps=rng.choice((None, None, 1, 2, 3, 3, 5, 5, 9, 9, 9, 20) + ((50,) if k % 6 == 0 else ())))
+        if k % 10 == 7:
+            # an exact interval whose sub-second part is a binary fraction,
+            # spelled in any unit (the members fall on ,5 / ,25 seconds)
+            desc = recgen.make(rng, mode, fmt=rng.choice((3, 4)),
+                               reps=rng.choice((None, 3, 5, 9)),
+                               interval=rng.choice(recgen.BINARY_INTERVALS))
         case = {"op": "queries", "desc": desc,
                 "probe_seed": rng.randrange(10**9)}
+        if k % 3 == 0:
+            case["then_mode"] = rng.choice([m for m in R.MODES if m != mode])
+            if k % 6 == 0:
+                # around the leap day, where gregorian / 365day / 366day part
+                a = desc["end"] if desc["fmt"] == 4 else desc["start"]
+                if "month_of_year" in a and mode != "360day":
+                    a.update(year=2020, month_of_year=2, day_of_month=27)
+                    case["then_mode"] = "365day" if mode != "365day" \
+                        else "gregorian"
+                    if desc["fmt"] != 1:
+                        desc["dur"] = {"days": 1}
+                        desc["reps"] = 4
         ctx.case = case
         if k % 101 == 0:
             ctx.sample(case)
